@@ -533,7 +533,7 @@ def _render_fn_lines(p, fid, ctx, prelude):
 
 def render_cls(p, cid, ctx):
     c = p["classes"][cid]
-    lines = ["class %s(object):" % c["name"], "    # %s" % c.get("comment", "c0")] + (["    LEVEL = %d" % c["attr"], ""] if c.get("attr") is not None else []) + ["    def __init__(self, a):", "        self.a = a", ""] + (["    @property"] if c.get("prop") else []) + ["    def %s(self):" % c["method"],
+    lines = ["class %s(object):" % c["name"], "    # %s" % c.get("comment", "c0")] + (["    LEVEL = %s" % (ctx.var_expr(c["attr_var"], "bare") if c.get("attr_var") else "%d" % c["attr"]), ""] if c.get("attr") is not None or c.get("attr_var") else []) + ["    def __init__(self, a):", "        self.a = a", ""] + (["    @property"] if c.get("prop") else []) + ["    def %s(self):" % c["method"],
              "        vlog.hit(%r)" % (c["name"] + "." + c["method"])]
     items = ["%r" % (c["name"] + "." + c["method"]), "%d" % c["const"], "self.a"]
     if c.get("var"):
@@ -682,9 +682,10 @@ def _own_items(p, fid, memo, stack=(), externals=None):
             if s["k"] in ("method", "clsattr", "clsref"):
                 c = p["classes"][s["cls"]]
                 items.append(("C", c["name"], render_cls_nomod(p, s["cls"])))
-                if c.get("var"):
-                    v = p["vars"][c["var"]]
-                    items.append(("V", v["module"], v["name"], v["value"]))
+                for cv_ in (c.get("var"), c.get("attr_var")):
+                    if cv_:
+                        v = p["vars"][cv_]
+                        items.append(("V", v["module"], v["name"], v["value"]))
             if s.get("cond"):
                 v = p["vars"][s["cond"]]
                 items.append(("V", v["module"], v["name"], v["value"]))
